@@ -32,14 +32,16 @@
      (0'') pending_gapless and pendingNonces consistency ARE carried through all guarded histories
          (C41_pending_gapless_histories; guard at every Reset: no account's state nonce moves below
          its non-empty pending list - without it the statement is false, C41_pending_gapless_refuted);
-     (1) "the queue has no executable head" is proved at list level (C41_ready_leaves_no_executable_head)
-         but not as a pool-level invariant; the bump rule is FALSE for a full pool
+     (1) "the queue has no executable head" is a pool-level invariant of all histories without head
+         changes (C41_no_executable_head_histories_partial); after a Reset cycle it needs a chain-consistency
+         guard on the reinjected txs that the model's fake chain does not enforce
+         (C41_no_executable_head_after_reset_refuted); the bump rule is FALSE for a full pool
          (C41_replacement_requires_bump_refuted);
      (2) fuel of the truncation/Discard loops never running out, priced-heap accounting, the
          per-account/global caps after maintenance.
    [pool_inv_b] is the executable full invariant, evaluated on every dump of the real pool by
    the harness oracle and on the model in C41_nonvacuous below. *)
-From GV Require Import Lib.Tactics Pool.Legacy Pool.LegacyProofs Pool.LegacyInv Pool.LegacyInv2 Pool.LegacyInv3 Pool.LegacyInv4 Pool.LegacyInv5 Pool.LegacyInv6 Pool.LegacyInv7 Pool.LegacyInv8 Pool.LegacyInv9 Pool.LegacyInv10 Pool.LegacyThm.
+From GV Require Import Lib.Tactics Pool.Legacy Pool.LegacyProofs Pool.LegacyInv Pool.LegacyInv2 Pool.LegacyInv3 Pool.LegacyInv4 Pool.LegacyInv5 Pool.LegacyInv6 Pool.LegacyInv7 Pool.LegacyInv8 Pool.LegacyInv9 Pool.LegacyInv10 Pool.LegacyInv11 Pool.LegacyThm.
 Local Open Scope N_scope.
 
 (* replacement_requires_bump: whenever list.Add replaces a transaction, the new one has the
@@ -278,6 +280,30 @@ Theorem C41_pending_gapless_histories : forall c tip g h, NoDup (c_accts c) -> h
             (forall l t, p_pending st a = Some l -> last (map Some (l_txs l)) None = Some t -> pn_get a st = t_nonce t + 1).
 Proof. exact C41_pending_gapless_histories_stmt. Qed.
 Print Assumptions C41_pending_gapless_histories.
+
+(* "the queue has no executable head" at pool level: after every Add cycle (and SetGasTip, listings) no
+   queued tx has a nonce at or below the pending nonce of its sender.  One preservation theorem for the
+   Add cycle and, by induction, all histories without head changes.  PARTIAL: after a Reset cycle the
+   clause additionally needs the reinjected txs to be consistent with the chain state (a dropped block
+   must not contain a tx above its own state nonce), which the fake chain of the model does not enforce:
+   C41_no_executable_head_after_reset_refuted is a witness with such a block (its history satisfies
+   reset_guard: no state nonce ever changes). *)
+Theorem C41_Add_cycle_no_executable_head : forall txs st, SGX st -> (forall t, In t txs -> okt (p_cfg st) t) -> SGX (fst (pool_Add txs st)).
+Proof. exact pool_Add_SGX. Qed.
+Print Assumptions C41_Add_cycle_no_executable_head.
+Theorem C41_no_executable_head_histories_partial : forall c tip g h, Forall (op_ok c) h ->
+  let st := run_history (pool_init c tip g) h in
+  forall a x, in_opt x (p_queue st a) -> pn_get a st < t_nonce x.
+Proof. exact C41_no_executable_head_histories_partial_stmt. Qed.
+Print Assumptions C41_no_executable_head_histories_partial.
+Theorem C41_no_executable_head_after_reset_refuted :
+  exists h, let st := run_history (pool_init cfg_roomy 1 g0) h in
+    option_map (fun l => map t_nonce (l_txs l)) (p_pending st 0) = Some [0; 1; 2] /\
+    pn_get 0 st = 3 /\
+    option_map (fun l => map t_nonce (l_txs l)) (p_queue st 0) = Some [3] /\
+    ch_nonce (p_chain st) 0 = 0.
+Proof. exact C41_no_executable_head_after_reset_refuted_stmt. Qed.
+Print Assumptions C41_no_executable_head_after_reset_refuted.
 
 (* ---------- witnesses ---------- *)
 (* branch 1 mines tA, tB; branch 2 (sibling) does not, and account 0 can no longer pay tB there *)
